@@ -334,6 +334,12 @@ def check_arbphase(spec):
     D = phase_wf.duration
     try:
         p = Pulse.ArbitraryPhase(ConstantWaveform(D, 1.0), phase_wf)
+        for post in (0.7, -1.1, 7.0):  # the other arguments of the constructor are kept
+            q = Pulse.ArbitraryPhase(ConstantWaveform(D, 1.0), phase_wf, post_phase_shift=post)
+            if abs((float(q.post_phase_shift) - post + math.pi) % (2 * math.pi) - math.pi) > 1e-12 or not (q.amplitude == p.amplitude) \
+                    or not (q.detuning == p.detuning) or abs(float(q.phase) - float(p.phase)) > 1e-12:
+                return [(f"C16:arbitrary-phase-drops-an-argument:{spec[0]}:duration={D if D <= 5 else 'n'}",
+                         f"{spec}: post_phase_shift={post} became {float(q.post_phase_shift)}")]
     except Exception as e:
         return [(f"C16:arbitrary-phase-raises:{spec[0]}:duration={D if D <= 5 else 'n'}", f"{spec}: {e!r}"[:200])]
     det = S(p.detuning)
